@@ -648,3 +648,42 @@ def startup_fault_probe(ctx, res, props, runs):
         res.nontrivial.add(("native-startup-fault", kind, repr(what), managed, nj))
         if box.get("second") != ("returned", [0, 3, 6, 9, 12]):
             res.fail("not-reusable-after-failed-start", case, dict(first=first, second=box.get("second")))
+    # The same on the REAL backends, for the start-up failures the public API can provoke there: whatever fails while the call is
+    # being set up is what must reach the caller - the clean-up of the failed start must not replace it by an error of its own
+    # (e.g. a backend that was never configured being terminated) - and the object stays usable.
+    real = [("n_jobs", 0, be) for be in ("loky", "threading", "multiprocessing")] + [("pre_dispatch", "-n_jobs", "loky"), ("input", 5, "loky")]
+    for kind, what, be in real:
+        case = dict(kind="native-startup-fault", cause=kind, what=repr(what), backend=be)
+        box = {}
+
+        def body_real():
+            p = joblib.Parallel(n_jobs=0 if kind == "n_jobs" else 2, backend=be, pre_dispatch=what if kind == "pre_dispatch" else "2*n_jobs")
+            try:
+                box["first"] = ("returned", p(5 if kind == "input" else (joblib.delayed(abs)(i) for i in range(3))))
+            except BaseException as e:  # noqa: BLE001
+                box["first"] = ("raised", type(e).__name__, type(e.__context__).__name__ if e.__context__ is not None else None)
+            p.n_jobs = 2
+            p.pre_dispatch = "2*n_jobs"
+            try:
+                box["second"] = ("returned", p(joblib.delayed(abs)(-i) for i in range(4)))
+            except BaseException as e:  # noqa: BLE001
+                box["second"] = ("raised", type(e).__name__, str(e)[:80])
+
+        t = threading.Thread(target=body_real, daemon=True)
+        t.start()
+        t.join(60)
+        res.evaluations += 1
+        res.count("native-startup-fault-runs:real-backend")
+        if t.is_alive():
+            res.fail("call-never-returns", case, dict(box=box))
+            continue
+        first = box.get("first")
+        expected = dict(n_jobs="ValueError", pre_dispatch="ValueError", input="TypeError")[kind]
+        res.nontrivial.add(("native-startup-fault-real", kind, be))
+        if not first or first[0] != "raised":
+            res.fail("startup-fault-not-surfaced", case, dict(first=first))
+        elif first[1] != expected and first[2] == expected:
+            # the start-up error was raised, and then replaced by an error of the clean-up
+            res.fail(f"startup-failure-masked-by-cleanup:{first[1]}", case, dict(first=first, expected=expected))
+        if box.get("second") != ("returned", [0, 1, 2, 3]):
+            res.fail("not-reusable-after-failed-start", case, dict(first=first, second=box.get("second")))
